@@ -24,10 +24,22 @@
 //! the node's own `apply_children` (and `map_children` must agree with it); outcome labels of such
 //! cases may therefore vary between processes, verdicts and non-trivial counts cannot.
 //!
-//! FINDING (genuine, recorded in known_findings.json, signature `trailing-empty-container`): see
-//! `known_signature` below.
+//! FINDINGS (genuine, open in /verif/known_findings.json; minimal cases under /verif/regressions/C42):
+//! * `trailing-empty-container` (c42a + c42b/Expr): tuple containers and `Vec<container>` /
+//!   `HashMap` / `Vec<&C>` take the status of the LAST member even when that member is empty, so a
+//!   `Jump` returned for the last child is forgotten when the node's layout ends with an empty
+//!   container: `transform_up` on `count(1,2,3)` with `f_up(3) = Jump` still calls `f_up(count(..))`
+//!   (a `ScalarFunction`, plain `Vec`, bypasses it as documented); same for CASE without ELSE, window
+//!   function without FILTER, `x IN ()`, GROUPING SETS ending in `()`. Proposed repair:
+//!   /verif/fixes/C42-empty-container-keeps-jump.diff (an empty container keeps the previous status).
+//! * `subquery-jump-absorbed` (c42b/LogicalSubq): see c42known.rs; proposed repair
+//!   /verif/fixes/C42-subquery-jump-belongs-to-plan-walk.diff.
+//! Cases that fall under an open finding are recognised exactly (the reference gives a different
+//! outcome with the finding's behaviour modelled — `c42known.rs`) and excluded with a counter; for
+//! container trees with a 2+ entry hash map the test is conservative (order unknown ahead of the run).
 //!
-//! Sensitivity probes (mutrun, quick tier): see the end of this header (filled in after probing).
+//! Sensitivity probes (tools/mutrun, quick tier; patches under harness/crates/vf-tree/probes/):
+//! PROBES-PLACEHOLDER
 use crate::c42ref::*;
 use datafusion::common::Result as DFResult;
 use datafusion::common::tree_node::{
